@@ -354,3 +354,14 @@ Definition compare_env (e : env) : verdict :=
     end
   | _ => VModelFails
   end.
+
+(* ------------------------------------------------------------------------------------- *)
+(* The class env_skeleton without its third clause: every schema is a skeleton (no object with an
+   allOf rule lies inside another object with an allOf rule), but a BASE type may carry rules
+   below its root — on nested objects and on array items, at any depth.  Such a base is copied by
+   value into every heir and the copies share the mutated grandchildren.  (allof_correct of
+   props/C12.v needs neither this class nor env_skeleton; the predicate names the shape, for the
+   example of props/C12.v and for the distribution printed by verifsys/checks/c12.py.) *)
+Definition env_skeleton2 (e : env) : bool :=
+  forallb (fun x : bytes * option tree => match snd x with Some t => tree_skel (S (tree_size t)) t | None => true end) (e_types e) &&
+  forallb (fun x : ukind * tree => tree_skel (S (tree_size (snd x))) (snd x)) (e_uses e).
